@@ -136,12 +136,14 @@ class Debugger:
     def location_to_instruction_number(self, b: str) -> int:
         """Resolve a user-supplied location string into an instruction number."""
         if b == ".":
+            if self.finished():
+                raise ValueError("program has finished executing.")
             return self.vm.pc
 
         if ":" in b:
             path, lineno = b.split(":", maxsplit=1)
         else:
-            path = self.op().loc.path
+            path = self.current_path()
             lineno = b
 
         try:
@@ -159,6 +161,18 @@ class Debugger:
                     return pc
 
             raise ValueError("could not find corresponding line.")
+
+    def current_path(self) -> str:
+        """
+        Return the path of the file that the current operation comes from, or of the
+        program's first operation once the program has finished.
+        """
+        if not self.finished():
+            return self.op().loc.path
+        elif self.program.code:
+            return self.program.code[0].loc.path
+        else:
+            return ""
 
     def instruction_number_to_location(self, b: int, *, append_label=True) -> str:
         """
